@@ -16,7 +16,7 @@
 EXTENDS Transport, Integers
 
 MonInit == [viol |-> <<>>, sc |-> "", c |-> RefInit, wseq |-> 0, segs |-> <<>>]
-V(m, reason, l, ctx) == [m EXCEPT !.viol = Append(@, [prop |-> "C08", reason |-> reason, line |-> l, sc |-> m.sc, ctx |-> ctx])]
+V(m, reason, l, ctx) == [m EXCEPT !.viol = IF Len(@) >= 300 THEN @ ELSE Append(@, [prop |-> "C08", reason |-> reason, line |-> l, sc |-> m.sc, ctx |-> ctx])]
 
 Proj(f) == [src |-> f.src, bc |-> f.bc, parts |-> f.parts, len |-> f.len]
 
